@@ -115,7 +115,14 @@ def monitor_c01(ctx):
     c = _run('c01_scen', 'c01_scen', [{'scenarios': [x]} for x in SC],
              'budget exactness by bisection on ONE parser (needs K: below K the ops-limit error, from K on the identical result, repeatedly): '
              'limits striking inside filter / map / sorted / reduce callbacks, re-used ast_names LambdaOp objects, a host callable re-entering eval')
-    return _merge('c01', [a, b, c])
+    KINDS = ['tuple', 'set', 'range', 'keys', 'values', 'items', 'gen', 'frozenset', 'str', 'iter', 'list']
+    LATE = [{'src': src, 'kinds': KINDS, 'budgets': [3, 6, 10, 25, 1000]} for src in
+            ['map(t, v => v + 1 + 1)', 't | map(v => [v, v])', 'filter(t, v => v == v)', 'sorted(t, v => v)', 'reduce(t, (a, b) => [a, b])', 'enumerate(t)',
+             'reversed(t)', 'r = map(t, v => v + 1); 1', 'x = [map(t, v => v + 1 + 1)]; 2', 'map(map(t, v => v), w => [w])', 'list(map(t, v => v + 1))', 'try_apply(w => map(t, v => v + 1 + 1), 0)',
+             'f = v => v + 1 + 1 + 1; map(t, f)', 'map(t, str)', 'sum(map(t, v => 1 + 1))', 'join(map(t, v => str(v)), ",")', 'max(map(t, v => 1 + 1))', 'len(filter(t, v => True))']]
+    d = _run('c01_late', 'c01_late', LATE, 'host iterables of every kind (tuple, set, range, dict views, generators, strings) under the per-element builtins at '
+             'several budgets: no operation starts after eval has returned (the result is not a lazy iterator over the lambda), operations started <= N')
+    return _merge('c01', [a, b, c, d])
 
 
 # ------------------------------------------------------------------ C02
@@ -404,7 +411,9 @@ def monitor_c09(ctx):
     c = _run('c09_hof', 'c09_hof', [{'cases': HOF[i:i + 20]} for i in range(0, len(HOF), 20)],
              'callbacks of map / filter / sorted / reduce whose bodies hold parameter-independent but state-dependent sub-expressions (helpers '
              'with state, builtin names bound by the host to a counter): evaluated once per application')
-    return _merge('c09', [a, b, c])
+    d = _run('c09_hostops', 'c09_hostops', [{'stride': 8, 'phase': k} for k in range(8)],
+             'and / or / if-else over host-supplied operands of every type: the result IS the deciding operand (object identity)')
+    return _merge('c09', [a, b, c, d])
 
 
 # ------------------------------------------------------------------ C10
@@ -543,6 +552,16 @@ def monitor_c11(ctx):
                          'calls': [['eval', t, 0, 1000, 7], ['eval', t, 1, 1000, 7], ['eval', t, 0, 1000, 7], ['eval', t, 1, 1000, 7], ['parse', t]]})
             pays.append({'heap': f'(U (M 1 (S:69 D:0:0:0:c)) (M 2 (S:{hx(nm)} H:{hostfn})))', 'cache': 'none', 'also_cached': True,
                          'calls': [['eval', t, 1, 1000, 7], ['eval', t, 0, 1000, 7], ['eval', t, 1, 1000, 7]]})
+    # evaluations that bring their own ast_names, then evaluations that do not (or bring others): one call's ast_names are gone with the call
+    for astn, first, later in ((['zadd', ['a', 'b'], 'a + b'], 'zadd(1, 2)', ['zadd(1, 2)', 'try_apply(w => zadd(1, 2), 0)', 'zadd']),
+                               (['len', ['v'], '0'], 'len([1, 2])', ['len([1, 2])', '[1, 2] | len', 'map([[1]], len)']),
+                               (['zk', [], '7'], 'zk() + 1', ['zk()', 'zk', 'x = zk; x']),
+                               (['str', ['v'], '"S"'], 'str(5)', ['str(5)', '"" + 5', 'join([1], ",")'])):
+        for mapping in (0, 'none'):
+            calls = [['evalast', first, mapping, 1000, 7, [astn]]]
+            for t in later:
+                calls += [['eval', t, mapping, 1000, 7], ['evalast', t, mapping, 1000, 7, [['zother', ['q'], 'q']]]]
+            pays.append({'heap': '(U (M 1 (S:69 D:0:0:0:c)))', 'cache': 'none', 'also_cached': True, 'calls': calls})
     # an abandoned generator is discarded WHILE a later list_names call is being consumed (with and without calls in between)
     for pre, k in (('total(price, qty)', '1'), ('a + [b, c', '2'), ('f(a, [b, {c: d', '3'), ('x = (a,\nb', '1')):
         for t in ('alpha + beta * gamma', 'f(a,\n b,\n c)', 'u\nv\nw'):
@@ -567,14 +586,21 @@ def monitor_c11(ctx):
         pp.append({'heap': h['heap'], 'calls': h['calls'], 'finals': finals, 'fresh_parser': rng.random() < 0.5})
     # every builtin called with missing / ill-typed / surplus arguments (the failures nobody anticipates), then inexact arithmetic:
     # whatever such a failure leaves behind at thread or module level, the later call answers as in a pristine interpreter
+    TIES = [['eval', t, 0, 'default', 7] for t in ('100000000000005 * 100000000000001', '2000000000000000000000000000.5 + 0', '0 - 4000000000000000000000000000.5',
+                                                   '30000000000000000000000000025 / 10', '[12345678901234567890123456785 * 10 / 10]', 'round(0.125, 2)', 'round(2.5)', 'round(0 - 0.5)')]
     fnames = [n for n in sqimpl.load().functions.FUNCTIONS.keys() if not n.startswith('__')]
     BADARGS = ['"3.14159", 2', 'None', '[1]', '"x"', '1, "a"', '{}', '', 'None, None', '1, 2, 3, 4', '"1e400"', '[], []', 'x => x']
     for i in range(0, len(fnames), 6):
         calls = [['eval', f'{fn}({a})', 0, 'default', 7] for fn in fnames[i:i + 6] for a in BADARGS]
         pp.append({'heap': '(U (M 1 (S:78 D:0:22:0:c)))', 'calls': calls,
                    'finals': [['eval', '1 / 3', 0, 'default', 7], ['eval', '2 ** 0.5', 0, 'default', 7], ['eval', 'x / 7 + 1', 0, 'default', 7],
-                              ['eval', 'round(2 / 3, 30)', 0, 'default', 7], ['eval', '[1.5 * 2.5, 0.1 + 0.2]', 0, 'default', 7]],
+                              ['eval', 'round(2 / 3, 30)', 0, 'default', 7], ['eval', '[1.5 * 2.5, 0.1 + 0.2]', 0, 'default', 7]] + TIES,
                    'fresh_parser': i % 12 == 0})
+    # ... and after ORDINARY calls of the numeric and formatting builtins: results that are exact ties at the 28th digit
+    GOOD = ['round(2.5)', 'round(1.25, 1)', 'round(0.125, 2)', 'round(7)', 'floor(1.5)', 'ceil(1.5)', 'int("3")', 'int(2.5)', 'float("1.5")', 'abs(0 - 1.5)', 'pretty(1234.5)',
+            'str(1.5)', 'sum([0.1, 0.2])', 'max(1, 2.5)', 'min([1, 2.5])', '2 ** 0.5', '1 / 3', 'sorted([2.5, 1.5])', 'join([1.5, 2], ",")', 'rand(1, 6)', 'index_of([1.5], 1.5)']
+    for i in range(0, len(GOOD), 3):
+        pp.append({'heap': '(U (M 1 (S:78 D:0:22:0:c)))', 'calls': [['eval', g, 0, 'default', 7] for g in GOOD[i:i + 3]], 'finals': TIES, 'fresh_parser': i % 2 == 0})
     c = _run('c11_process', 'c11_process', pp, 'after a history in one process, further calls (sources equal / nearly equal to earlier ones: other '
              'blanks, case, quotes, number spellings) with freshly built arguments, on the used or on a new SqParser, compared with the same call '
              'in a pristine interpreter forked from a process that never parsed or evaluated anything')
@@ -813,7 +839,9 @@ def monitor_c18(ctx):
                            # characters a normalising pre-pass could touch: no-break / en / ideographic / zero-width spaces, tabs,
                            # doubled, leading and trailing blanks, case, composed letters
                            '%a\u00a0b%', '%a\tb%', '%a  b%', '% a%', '%a %', '%a\u2003b%', '%\u00e9 \u00fc%', '%a\u200bb%', '%A b%', '%a\u3000b%',
-                           '%a b% + %a\u00a0b%', '%x\u00a0%'])
+                           '%a b% + %a\u00a0b%', '%x\u00a0%',
+                           # decomposed letters (base + combining mark), compatibility characters, Hangul jamo: the name is the text as written
+                           '%e\u0301 u\u0308%', '%\u0438\u0306%', '%a\u030a%', '%\ufb01x%', '%\u1100\u1161%', '%e\u0301% + %\u00e9%', '%\u2126%', '%K\u212a%'])
             src = r.choice([nm, f'{nm} + 1', f'x = {nm}', f'f({nm}, y)', f'cfg = {{key: {nm}, "n": count}}\ncfg'])
         else:
             src = r.choice(['cfg = {key: limit, "n": count}\ncfg', 'a.b(c | d(e), f => g)', 'x = [p, q][r:s]', 'del m[k]; m[j] += v', 'list(a, dict())'])
